@@ -1,9 +1,14 @@
 #!/usr/bin/env bash
-# writes build/overlay-plain.json: accessor files added to /repo packages (nothing is replaced)
+# usage: mkoverlay.sh <out.json>
+# Writes a `go build -overlay` file that ADDS the accessor files under /verif/overlay to /repo packages
+# (nothing of /repo is replaced). If VERIF_EXTRA_OVERLAY names a directory, every file below it
+# replaces the file with the same relative path in /repo — used only to try candidate fixes or
+# deliberate property-breaking changes without touching /repo.
 set -eu
 here="$(cd "$(dirname "${BASH_SOURCE[0]}")" && pwd)"
 . "$here/env.sh"
-mkdir -p "$VERIF_ROOT/build"
+out="$1"
+mkdir -p "$(dirname "$out")"
 {
   echo '{"Replace":{'
   first=1
@@ -13,5 +18,13 @@ mkdir -p "$VERIF_ROOT/build"
     first=0
     printf '"/repo/%s":"%s/overlay/%s"' "$f" "$VERIF_ROOT" "$f"
   done
+  if [ -n "${VERIF_EXTRA_OVERLAY:-}" ]; then
+    for f in $(cd "$VERIF_EXTRA_OVERLAY" && find . -type f -name '*.go' | sort); do
+      f="${f#./}"
+      [ $first = 1 ] || echo ','
+      first=0
+      printf '"/repo/%s":"%s/%s"' "$f" "$VERIF_EXTRA_OVERLAY" "$f"
+    done
+  fi
   echo '}}'
-} > "$VERIF_ROOT/build/overlay-plain.json"
+} > "$out"
